@@ -22,7 +22,17 @@ def run_one(pid, tier, seed, only_key=None):
     try:
         repo = Repo()
         chk = Check(pid, tier, repo)
-        explanation, rule_text = mod.run(chk, repo, tier)
+        try:
+            explanation, rule_text = mod.run(chk, repo, tier)
+        except AnalysisError as e:
+            # obligations that already failed are findings in their own right: they are reported (exit 1) even though the
+            # rest of the analysis could not be completed; without any, the run is an analysis error (exit 2)
+            if not chk.violations:
+                raise
+            print(f'[{pid}] analysis stopped after {len(chk.violations)} reported violation(s): {e}')
+            chk.notes['analysis_stopped'] = str(e)
+            explanation, rule_text = (f'PARTIAL RUN: the analysis stopped at "{e}" after the violations below were '
+                                      f'established; rules after that point were not evaluated.', 'instances evaluated before the stop')
         if tier == 'thorough' and only_key is None:
             from . import selftest
             st = selftest.run(pid)
